@@ -190,9 +190,15 @@ def check(ob, scratch, gb, log):
     if results is None:
         why = "; ".join(msgs)[-2000:] or (se or so)[-2000:]
         return {"status": "error", "seconds": dt, "why": "cbmc gave no result list (rc=%s): %s" % (rc, why)}
-    # only SUCCESS and FAILURE are verdicts; ERROR / UNKNOWN (solver gave up on that property) decide nothing
-    if any("out of memory" in m for m in msgs) or any(r.get("status") not in ("SUCCESS", "FAILURE") for r in results):
+    # only SUCCESS and FAILURE are verdicts; ERROR / UNKNOWN (solver gave up on that property) decide nothing.  A FAILURE of a
+    # property other than the vacuity canary is a counterexample in its own right (cbmc leaves later properties UNKNOWN once
+    # checks on the same path have failed): the run is then classified normally, with the undetermined properties ignored.
+    undetermined = [r for r in results if r.get("status") not in ("SUCCESS", "FAILURE")]
+    real_failure = any(r.get("status") == "FAILURE" and not (r.get("description") or "").startswith("canary") for r in results)
+    if any("out of memory" in m for m in msgs) or (undetermined and not real_failure):
         return {"status": "error", "seconds": dt, "why": "solver ran out of memory / returned ERROR or UNKNOWN for some properties"}
+    if undetermined:
+        results = [r for r in results if r.get("status") in ("SUCCESS", "FAILURE")]
     for m in msgs:
         if re.search(r"ignoring (forall|exists)", m):
             return {"status": "error", "seconds": dt, "why": "quantifier dropped by back end: " + m}
